@@ -18,7 +18,7 @@ struct vf_ghost {
   int64_t dc_m, dc_rn;   /* dc_m names the product dc_q * 10^7 (whole seconds in ticks), dc_rn the remainder dc_r in nanoseconds */
   /* operator-(a, b): decomposition of the value difference supplied by the caller of the contract:
    * a - b = sub_ds seconds + sub_t ticks + sub_rem ns, |sub_rem| < 100 (sub-grain part, truncated toward zero) */
-  int64_t sub_ds, sub_t, sub_rem;
+  int64_t sub_ds, sub_t, sub_rem, sub_m;   /* sub_m names the product sub_ds * 10^7 */
   /* now(): the reading clock_gettime produced */
   unsigned clock_reads; int64_t ts_sec; long ts_nsec;
 };
@@ -59,8 +59,12 @@ static const int64_t code_nanoseconds_per_second = /*@EXPR nanoseconds_per_secon
                            && (r) > -TPS && (r) < TPS && ((d) >= 0 ? (r) >= 0 : (r) <= 0))
 /* what the contracts below say about the recorded split: everything except the product itself, which is named by the
  * ghost dc_m where the cast evaluates it (dc_m == dc_q * 10^7 by construction; not evaluated a second time) */
-#define DC_SPLIT_OF(d) (G.dc_d == (d) && G.dc_q >= -DC_Q_MAX && G.dc_q <= DC_Q_MAX && (d) == G.dc_m + G.dc_r \
-                        && G.dc_r > -TPS && G.dc_r < TPS && ((d) >= 0 ? G.dc_r >= 0 : G.dc_r <= 0) && G.dc_rn == G.dc_r * NPT)
+#define DC_SPLIT_OF(d) ((d) >= -D_MAX && (d) <= D_MAX && G.dc_d == (d) && G.dc_q >= -DC_Q_MAX && G.dc_q <= DC_Q_MAX \
+                        && G.dc_r > -TPS && G.dc_r < TPS && ((d) >= 0 ? G.dc_r >= 0 : G.dc_r <= 0) && (d) - G.dc_r == G.dc_m && G.dc_rn == G.dc_r * NPT)
+/* the cast is a function: asked again for the same duration it gives the same split */
+#define DC_SAME_AS_BEFORE(d) ((__CPROVER_old(G.dc_calls) > 0 && __CPROVER_old(G.dc_d) == (d)) ==> \
+   (G.dc_q == __CPROVER_old(G.dc_q) && G.dc_m == __CPROVER_old(G.dc_m) && G.dc_r == __CPROVER_old(G.dc_r) && G.dc_rn == __CPROVER_old(G.dc_rn)))
+#define DC_CALLED_ONCE (G.dc_calls == __CPROVER_old(G.dc_calls) + 1)
 static int64_t VF_DURATION_CAST_SECONDS(duration_t d) {
   VF_P(d >= -D_MAX && d <= D_MAX, "duration operand within +-2^62 ticks (operand range)");
   if (G.dc_calls > 0 && G.dc_d == d) { G.dc_calls++; return G.dc_q; }   /* the cast is a function of its argument */
@@ -151,12 +155,12 @@ __CPROVER_ensures(__CPROVER_return_value == self->nanoseconds_)
  * ticks, |r| < 10^7, no rounding: DC_AXIOM) that is: the result is the canonical pair of
  * (s +- q) seconds and (ns +- r * 100) nanoseconds, i.e. those two sums up to a carry of c whole seconds. */
 #define ADV(self, sign, c) ((self)->seconds_ == __CPROVER_old((self)->seconds_) sign G.dc_q + (c) && (self)->nanoseconds_ == __CPROVER_old((self)->nanoseconds_) sign G.dc_rn - (c) * NPS)
-#define PM_REQ(self, d) (CANON(*(self)) && (self)->seconds_ > -S_MAX && (self)->seconds_ < S_MAX && (d) >= -D_MAX && (d) <= D_MAX && G.dc_calls == 0)
+#define PM_REQ(self, d) (CANON(*(self)) && (self)->seconds_ > -S_MAX && (self)->seconds_ < S_MAX && (d) >= -D_MAX && (d) <= D_MAX && G.dc_calls < 1000 && (G.dc_calls > 0 ==> DC_SPLIT_OF(G.dc_d)))
 struct time_point* time_point_plus_eq(struct time_point* self, duration_t d)
 __CPROVER_requires(PM_REQ(self, d))
 __CPROVER_assigns(self->seconds_, self->nanoseconds_, G.dc_calls, G.dc_d, G.dc_q, G.dc_m, G.dc_r, G.dc_rn)
 __CPROVER_ensures(__CPROVER_return_value == self)
-__CPROVER_ensures(G.dc_calls == 1 && DC_SPLIT_OF(d)) /* the operand itself was split, once */
+__CPROVER_ensures(DC_CALLED_ONCE && DC_SPLIT_OF(d) && DC_SAME_AS_BEFORE(d)) /* the operand itself was split, once */
 __CPROVER_ensures(CANON(*self)) /* the class invariant is kept */
 __CPROVER_ensures(ADV(self, +, -2) || ADV(self, +, -1) || ADV(self, +, 0) || ADV(self, +, 1) || ADV(self, +, 2)) /* advanced by exactly q s + r ticks = d */
 /*@BODY plus_eq*/
@@ -165,17 +169,17 @@ struct time_point* time_point_minus_eq(struct time_point* self, duration_t d)
 __CPROVER_requires(PM_REQ(self, d))
 __CPROVER_assigns(self->seconds_, self->nanoseconds_, G.dc_calls, G.dc_d, G.dc_q, G.dc_m, G.dc_r, G.dc_rn)
 __CPROVER_ensures(__CPROVER_return_value == self)
-__CPROVER_ensures(G.dc_calls == 1 && DC_SPLIT_OF(d))
+__CPROVER_ensures(DC_CALLED_ONCE && DC_SPLIT_OF(d) && DC_SAME_AS_BEFORE(d))
 __CPROVER_ensures(CANON(*self))
 __CPROVER_ensures(ADV(self, -, -2) || ADV(self, -, -1) || ADV(self, -, 0) || ADV(self, -, 1) || ADV(self, -, 2)) /* moved back by exactly q s + r ticks = d */
 /*@BODY minus_eq*/
 
 #define ADV_V(rv, a, sign, c) ((rv).seconds_ == (a).seconds_ sign G.dc_q + (c) && (rv).nanoseconds_ == (a).nanoseconds_ sign G.dc_rn - (c) * NPS)
-#define PMV_REQ(a, d) (CANON(a) && (a).seconds_ > -S_MAX && (a).seconds_ < S_MAX && (d) >= -D_MAX && (d) <= D_MAX && G.dc_calls == 0)
+#define PMV_REQ(a, d) (CANON(a) && (a).seconds_ > -S_MAX && (a).seconds_ < S_MAX && (d) >= -D_MAX && (d) <= D_MAX && G.dc_calls < 1000 && (G.dc_calls > 0 ==> DC_SPLIT_OF(G.dc_d)))
 struct time_point time_point_plus_d(struct time_point a, duration_t d)
 __CPROVER_requires(PMV_REQ(a, d))
 __CPROVER_assigns(G.dc_calls, G.dc_d, G.dc_q, G.dc_m, G.dc_r, G.dc_rn)
-__CPROVER_ensures(G.dc_calls == 1 && DC_SPLIT_OF(d))
+__CPROVER_ensures(DC_CALLED_ONCE && DC_SPLIT_OF(d) && DC_SAME_AS_BEFORE(d))
 __CPROVER_ensures(CANON(__CPROVER_return_value))
 __CPROVER_ensures(ADV_V(__CPROVER_return_value, a, +, -2) || ADV_V(__CPROVER_return_value, a, +, -1) || ADV_V(__CPROVER_return_value, a, +, 0) || ADV_V(__CPROVER_return_value, a, +, 1) || ADV_V(__CPROVER_return_value, a, +, 2)) /* a + d: a advanced by exactly d */
 /*@BODY plus_d*/
@@ -183,7 +187,7 @@ __CPROVER_ensures(ADV_V(__CPROVER_return_value, a, +, -2) || ADV_V(__CPROVER_ret
 struct time_point time_point_minus_d(struct time_point a, duration_t d)
 __CPROVER_requires(PMV_REQ(a, d))
 __CPROVER_assigns(G.dc_calls, G.dc_d, G.dc_q, G.dc_m, G.dc_r, G.dc_rn)
-__CPROVER_ensures(G.dc_calls == 1 && DC_SPLIT_OF(d))
+__CPROVER_ensures(DC_CALLED_ONCE && DC_SPLIT_OF(d) && DC_SAME_AS_BEFORE(d))
 __CPROVER_ensures(CANON(__CPROVER_return_value))
 __CPROVER_ensures(ADV_V(__CPROVER_return_value, a, -, -2) || ADV_V(__CPROVER_return_value, a, -, -1) || ADV_V(__CPROVER_return_value, a, -, 0) || ADV_V(__CPROVER_return_value, a, -, 1) || ADV_V(__CPROVER_return_value, a, -, 2)) /* a - d: a moved back by exactly d */
 /*@BODY minus_d*/
@@ -194,12 +198,12 @@ __CPROVER_ensures(ADV_V(__CPROVER_return_value, a, -, -2) || ADV_V(__CPROVER_ret
  * it is EXACT (no truncation) when the operands' nanoseconds differ by a multiple of the 100 ns grain. */
 #define SUB_S_MAX ((int64_t)1 << 38)
 #define SUB_REQ(a, b) (CANON(a) && CANON(b) && (a).seconds_ > -SUB_S_MAX && (a).seconds_ < SUB_S_MAX && (b).seconds_ > -SUB_S_MAX && (b).seconds_ < SUB_S_MAX \
-   && (a).seconds_ - (b).seconds_ == G.sub_ds && G.sub_t > -2 * TPS && G.sub_t < 2 * TPS && G.sub_rem > -NPT && G.sub_rem < NPT \
+   && (a).seconds_ - (b).seconds_ == G.sub_ds && G.sub_m == G.sub_ds * TPS && G.sub_t > -2 * TPS && G.sub_t < 2 * TPS && G.sub_rem > -NPT && G.sub_rem < NPT \
    && (a).nanoseconds_ - (b).nanoseconds_ == G.sub_t * NPT + G.sub_rem && (G.sub_t > 0 ? G.sub_rem >= 0 : 1) && (G.sub_t < 0 ? G.sub_rem <= 0 : 1))
 duration_t time_point_minus(struct time_point a, struct time_point b)
 __CPROVER_requires(SUB_REQ(a, b))
 __CPROVER_assigns()
-__CPROVER_ensures(__CPROVER_return_value == G.sub_ds * TPS + G.sub_t) /* (a.s - b.s) seconds and (a.ns - b.ns) / 100 ticks, as one tick count */
+__CPROVER_ensures(__CPROVER_return_value == G.sub_m + G.sub_t) /* (a.s - b.s) seconds and (a.ns - b.ns) / 100 ticks, as one tick count */
 /*@BODY minus*/
 
 /* comparisons: == is equality of pairs, < the lexicographic order, the other four are defined by them */
@@ -236,7 +240,8 @@ __CPROVER_ensures(__CPROVER_return_value == (TP_LT(b, a) || TP_EQ(a, b)))
 /* ================= harnesses ================= */
 static struct time_point TPA, TPB;
 static struct time_point any_tp(void) { struct time_point t; t.seconds_ = VF_nondet_i64(); t.nanoseconds_ = VF_nondet_i64(); return t; }
-static void h_init(void) { G.dc_calls = 0; G.dc_d = 0; G.dc_q = 0; G.dc_m = 0; G.dc_r = 0; G.dc_rn = 0; G.clock_reads = 0; G.sub_ds = VF_nondet_i64(); G.sub_t = VF_nondet_i64(); G.sub_rem = VF_nondet_i64(); }
+static void h_prior_split(void) { if (VF_nondet_bool()) { duration_t d0 = VF_nondet_i64(); __CPROVER_assume(d0 >= -D_MAX && d0 <= D_MAX); VF_DURATION_CAST_NANOSECONDS(VF_DURATION_MINUS_SECONDS(d0, VF_DURATION_CAST_SECONDS(d0))); } }
+static void h_init(void) { G.dc_calls = 0; G.dc_d = 0; G.dc_q = 0; G.dc_m = 0; G.dc_r = 0; G.dc_rn = 0; G.clock_reads = 0; G.sub_ds = VF_nondet_i64(); G.sub_t = VF_nondet_i64(); G.sub_rem = VF_nondet_i64(); G.sub_m = VF_nondet_i64(); }
 void h_normalize(void) { h_init(); TPA = any_tp(); time_point_normalize(&TPA); VF_CANARY("after normalize");
   if (TPA.seconds_ < 0) { VF_CANARY("normalize can yield a negative time"); } if (TPA.nanoseconds_ > 0) { VF_CANARY("normalize can yield positive nanoseconds"); } }
 void h_from_seconds_and_nanoseconds(void) { h_init(); struct time_point r = time_point_from_seconds_and_nanoseconds(VF_nondet_i64(), VF_nondet_i64()); VF_CANARY("after from_seconds_and_nanoseconds"); }
@@ -245,12 +250,12 @@ void h_max(void) { h_init(); struct time_point r = time_point_max(); VF_CANARY("
 void h_min(void) { h_init(); struct time_point r = time_point_min(); VF_CANARY("after min"); }
 void h_seconds_part(void) { h_init(); TPA = any_tp(); time_point_seconds_part(&TPA); VF_CANARY("after seconds_part"); }
 void h_nanoseconds_part(void) { h_init(); TPA = any_tp(); time_point_nanoseconds_part(&TPA); VF_CANARY("after nanoseconds_part"); }
-void h_plus_eq(void) { h_init(); TPA = any_tp(); struct time_point o = TPA; time_point_plus_eq(&TPA, VF_nondet_i64()); VF_CANARY("after +=");
+void h_plus_eq(void) { h_init(); h_prior_split(); TPA = any_tp(); struct time_point o = TPA; time_point_plus_eq(&TPA, VF_nondet_i64()); VF_CANARY("after +=");
   if (TPA.seconds_ == o.seconds_ + G.dc_q + 1) { VF_CANARY("+= can carry a second up"); } if (TPA.seconds_ == o.seconds_ + G.dc_q - 1) { VF_CANARY("+= can borrow a second"); } }
-void h_minus_eq(void) { h_init(); TPA = any_tp(); struct time_point o = TPA; time_point_minus_eq(&TPA, VF_nondet_i64()); VF_CANARY("after -=");
+void h_minus_eq(void) { h_init(); h_prior_split(); TPA = any_tp(); struct time_point o = TPA; time_point_minus_eq(&TPA, VF_nondet_i64()); VF_CANARY("after -=");
   if (TPA.seconds_ == o.seconds_ - G.dc_q + 1) { VF_CANARY("-= can carry a second up"); } if (TPA.seconds_ == o.seconds_ - G.dc_q - 1) { VF_CANARY("-= can borrow a second"); } }
-void h_plus_d(void) { h_init(); struct time_point r = time_point_plus_d(any_tp(), VF_nondet_i64()); VF_CANARY("after tp + d"); }
-void h_minus_d(void) { h_init(); struct time_point r = time_point_minus_d(any_tp(), VF_nondet_i64()); VF_CANARY("after tp - d"); }
+void h_plus_d(void) { h_init(); h_prior_split(); struct time_point r = time_point_plus_d(any_tp(), VF_nondet_i64()); VF_CANARY("after tp + d"); }
+void h_minus_d(void) { h_init(); h_prior_split(); struct time_point r = time_point_minus_d(any_tp(), VF_nondet_i64()); VF_CANARY("after tp - d"); }
 void h_minus(void) { h_init(); duration_t r = time_point_minus(any_tp(), any_tp()); VF_CANARY("after tp - tp");
   if (G.sub_rem != 0) { VF_CANARY("operands off the 100 ns grain"); } if (r < 0) { VF_CANARY("negative difference"); } }
 void h_eq(void) { h_init(); _Bool r = time_point_eq(any_tp(), any_tp()); if (r) { VF_CANARY("== can hold"); } else { VF_CANARY("== can fail"); } }
@@ -334,14 +339,46 @@ void lemma_div_axiom(void) {
   __CPROVER_assume(DC_AXIOM(d, q2, r2));
   VF_P(q2 == q && r2 == r, "lemma (|d| < 2^32): DC_AXIOM has no other solution than the truncating quotient");
 }
-/* a + d - d == a and a - d + d == a, on the extracted operators (normalize inlined) */
-void lemma_add_sub_roundtrip(void) {
-  h_init();
-  struct time_point a = any_tp(); duration_t d = VF_nondet_i64();
-  __CPROVER_assume(PMV_REQ(a, d));
-  struct time_point t = a;
-  _Bool add_first = VF_nondet_bool();
-  if (add_first) { time_point_plus_eq(&t, d); time_point_minus_eq(&t, d); } else { time_point_minus_eq(&t, d); time_point_plus_eq(&t, d); }
+/* ---- lemmas over the contracts of += / -= / + / - (callees replaced by their contracts) ---- */
+/* a + d - d == a and a - d + d == a */
+void lemma_add_sub_roundtrip_fn(struct time_point* t, duration_t d, _Bool add_first)
+__CPROVER_requires(t == &TPA && PM_REQ(t, d) && G.dc_calls == 0 && TPA.seconds_ > -S_MAX / 2 && TPA.seconds_ < S_MAX / 2)
+__CPROVER_assigns(TPA.seconds_, TPA.nanoseconds_, G.dc_calls, G.dc_d, G.dc_q, G.dc_m, G.dc_r, G.dc_rn)
+__CPROVER_ensures(TPA.seconds_ == __CPROVER_old(TPA.seconds_) && TPA.nanoseconds_ == __CPROVER_old(TPA.nanoseconds_)) /* lemma: adding a duration and subtracting it again (in either order) returns the same time_point */
+{
+  if (add_first) { time_point_plus_eq(t, d); time_point_minus_eq(t, d); } else { time_point_minus_eq(t, d); time_point_plus_eq(t, d); }
+}
+void lemma_add_sub_roundtrip(void) { h_init(); TPA = any_tp(); lemma_add_sub_roundtrip_fn(&TPA, VF_nondet_i64(), VF_nondet_bool()); VF_CANARY("lemma premises satisfiable"); }
+
+/* (a + d) - a == d.  The carry c moves c * 10^7 ticks between the two terms of operator-'s result; that
+ * (q + c) * 10^7 == q * 10^7 + c * 10^7 is the ring identity proved in lemma_ring (no SAT back end proves it on
+ * 64-bit words), instantiated here for the product the cast named dc_m. */
+#define DOS_S_MAX ((int64_t)1 << 37)
+#define DOS_D_MAX ((int64_t)1 << 60)
+duration_t lemma_diff_of_sum_fn(struct time_point a, duration_t d)
+__CPROVER_requires(PMV_REQ(a, d) && G.dc_calls == 0 && a.seconds_ > -DOS_S_MAX && a.seconds_ < DOS_S_MAX && d >= -DOS_D_MAX && d <= DOS_D_MAX)
+__CPROVER_assigns(G.dc_calls, G.dc_d, G.dc_q, G.dc_m, G.dc_r, G.dc_rn, G.sub_ds, G.sub_t, G.sub_rem, G.sub_m)
+__CPROVER_ensures(__CPROVER_return_value == d) /* lemma: (a + d) - a == d, exactly */
+{
+  struct time_point t = time_point_plus_d(a, d);
+  /* the difference is ds = dc_q + c seconds (c: the carry chosen by normalize) and dc_r - c * 10^7 ticks, nothing below the grain */
+  G.sub_ds = t.seconds_ - a.seconds_;
+  int64_t c = G.sub_ds - G.dc_q;
+  G.sub_m = G.sub_ds * TPS;
+  G.sub_t = G.dc_r - c * TPS; G.sub_rem = 0;
+  /* instance of lemma_ring (R1) for ds = dc_q + c, with dc_m == dc_q * 10^7 (definition of the ghost dc_m, set where the cast evaluates the product) */
+  __CPROVER_assume(G.sub_m == G.dc_m + c * TPS);
+  return time_point_minus(t, a);
+}
+void lemma_diff_of_sum(void) { h_init(); duration_t r = lemma_diff_of_sum_fn(any_tp(), VF_nondet_i64()); VF_CANARY("lemma premises satisfiable"); if (r < 0) { VF_CANARY("negative durations covered"); } }
+
+/* ring identities of two's-complement arithmetic used above and in the reading of operator-'s contract; proved by
+ * z3 (polynomial normalisation), see spec.py: (R1) the carry distributes; (R2) the tick count of operator-'s contract,
+ * ds * 10^7 + t, is the value difference ds * 10^9 + t * 100 ns exactly: a - b is exact for operands on the 100 ns grain */
+void lemma_ring(void) {
+  int64_t q = VF_nondet_i64(), c = VF_nondet_i64(), ds = VF_nondet_i64(), t = VF_nondet_i64();
+  __CPROVER_assume(q >= -DC_Q_MAX && q <= DC_Q_MAX && c >= -4 && c <= 4 && ds > -((int64_t)1 << 33) && ds < ((int64_t)1 << 33) && t > -2 * TPS && t < 2 * TPS);
   VF_CANARY("lemma premises satisfiable");
-  VF_P(TP_EQ(t, a), "lemma: adding a duration and subtracting it again (in either order) returns the same time_point");
+  VF_P((q + c) * TPS == q * TPS + c * TPS, "lemma (R1): (q + c) * 10^7 == q * 10^7 + c * 10^7");
+  VF_P((ds * TPS + t) * NPT == ds * NPS + t * NPT, "lemma (R2): (ds * 10^7 + t) ticks are exactly ds * 10^9 + t * 100 ns: a - b is exact on the 100 ns grain");
 }
